@@ -42,6 +42,18 @@ CHECKS = {
    text="Twin trees: the library operation on one, on the other the harness's own openat2(RESOLVE_IN_ROOT) of the parent plus the single raw *at syscall on (parent, final name); outcomes (errno), resulting trees and create_file descriptor identity/flags must match. Search over trees, operations, spellings, flags, modes, umask, backends, APIs.",
    note="Kernel *at calls are the reference; O_CREAT|O_PATH excluded here (C03); >40 traversals outside the domain; tmpfs only.",
    technique="property-based differential testing against raw *at system calls on a twin tree"),
+ "C06": dict(level="exploration", ref="DESIGN.md §3 C06",
+   text="In a private mount namespace the harness places generated sets of tmpfs/bind over-mounts on procfs entries (files, dirs, links, magic-links) and creates every kind of handle itself, so it knows which handles can see which mounts and which dentries each request walks through; every open/open_follow/readlink result is compared by identity with the same lookup on a pristine descriptor of the same procfs instance made before the mounts; visible over-mounts on the way must give EXDEV.",
+   note="Needs CAP_SYS_ADMIN (mount namespace); mount ids reported by the kernel; the racing-mount placements during a lookup are not enumerated (only mounts in place before the call).",
+   technique="property-based testing in a mount namespace with an identity oracle against a pristine procfs view and a visibility/traversal model"),
+ "C07": dict(level="exploration", ref="DESIGN.md §3 C07",
+   text="Sub-paths drawn from a live enumeration of /proc, /proc/self and /proc/thread-self (plain, decorated, hostile), every op, base, flag set incl. creation flags, five handle kinds, both procfs resolvers; shape oracles (refusals, no-follow, containment) plus identity against the harness's own O_NOFOLLOW walk on the same procfs instance, plus resolver equivalence.",
+   note="Identity oracles only for try_from_fd handles (same procfs instance as the harness's descriptor); thread-id dependent names are normalised for the cross-resolver comparison.",
+   technique="property-based testing over live procfs enumeration with differential oracles (pristine walk, two resolvers)"),
+ "C09": dict(level="exploration", ref="DESIGN.md §3 C09",
+   text="Handle of every inode type placed at chosen descriptor numbers (0 included), reopened with generated flags after a generated history of renames/replacements/unlinks, on normal and over-mounted host /proc, as root and as an unprivileged user, under five kernel configurations, via Rust and C API; result must be the handle's inode with the kernel's own flags/errno (reference: the kernel's open of the same inode through a pristine fd link), ELOOP for links, refusal of creation flags, errors only from visible over-mounts.",
+   note="The handle descriptor is made by the harness and wrapped with Handle::from_fd; visibility of over-mounts is derived from the caller's ability to create a private procfs and the kernel configuration.",
+   technique="property-based testing with history generation and a kernel reference open"),
 }
 NOT_YET = {}
 ALL = ["C%02d" % i for i in range(1, 19)]
